@@ -17,7 +17,7 @@ def run(ck):
     ck.build_vh()
     # ---- S->C
     pairs = cellcommon.gen_and_replay(ck)
-    nparsed = 0
+    nparsed = ndeep = 0
     for v, r in pairs:
         if r["panic"]:
             ck.report("C02:gen:panic:" + v["kind"], "panic on a well-formed bag: " + r["panic"], {"kind": "gen", "vector": v, "got": r})
@@ -25,7 +25,18 @@ def run(ck):
         if not r["ok"]:
             continue            # not parsed: C01's concern (foreign bags), not a hash question
         nparsed += 1
-        if r["hash"] != v["hash"]:
+        if v["deep"]:
+            # a cell that is too deep at one of its levels does not exist: no way of asking may return a hash for it
+            ndeep += 1
+            if r["hash"] != "" or r["hash2"] != "":
+                ck.report("C02:gen:too-deep-hashed:" + v["kind"], "a cell whose depth exceeds 1024 at one of its levels (%s) is given a hash: Hash/HashString %r, caching hasher %r"
+                          % (v["tree"][:80], r["hash"], r["hash2"]), {"kind": "gen", "vector": v, "got": r})
+            else:
+                ck.traces_ok += 1
+            continue
+        if r["hash2"] != r["hash"]:
+            ck.report("C02:gen:hasher:" + v["kind"], "the caching hasher (asked twice) and HashString disagree: %r vs %r" % (r["hash2"], r["hash"]), {"kind": "gen", "vector": v, "got": r})
+        elif r["hash"] != v["hash"]:
             ck.report("C02:gen:hash:" + v["kind"], "Hash() of parsed root differs from the specification: want %s got %s" % (v["hash"], r["hash"]),
                       {"kind": "gen", "vector": v, "got": r})
         elif r["level"] != v["level"]:
@@ -37,8 +48,13 @@ def run(ck):
         raise Infra("only %d of %d generated bags were parsed: S->C is vacuous" % (nparsed, len(pairs)))
     ck.extra["gen_vectors"] = len(pairs)
     ck.extra["gen_parsed"] = nparsed
+    ck.extra["gen_too_deep"] = ndeep
+    if ndeep < 5:
+        raise Infra("only %d generated bags with a cell beyond the depth bound were parsed" % ndeep)
+    vd = next(v for v, r in pairs if v["deep"])
+    ck.canary("S->C: a hash returned for a too-deep cell is flagged", vd["hash"] != "")
     ck.sample({"direction": "S->C", "vector": {k: (x if k != "boc" else x[:80] + "...") for k, x in pairs[len(pairs) // 2][0].items()}})
-    v0, r0 = next((v, r) for v, r in pairs if r["ok"])
+    v0, r0 = next((v, r) for v, r in pairs if r["ok"] and not v["deep"])
     ck.canary("S->C: expectation with one hash digit changed is flagged", (v0["hash"][:-1] + ("0" if v0["hash"][-1] != "0" else "1")) != r0["hash"])
 
     # ---- C->S
